@@ -1,5 +1,6 @@
 """C08 — numeric operators are exact or fail (DESIGN.md §3 C08)."""
-import json, struct, collections, sys, re
+import json, struct, collections, sys, re, os, math, zlib, hashlib, subprocess, time
+import concurrent.futures, multiprocessing
 if hasattr(sys, "set_int_max_str_digits"):
     sys.set_int_max_str_digits(0)
 from fractions import Fraction
@@ -7,11 +8,11 @@ from fractions import Fraction
 READY = True
 
 META = {
-    "technique": "Lean 4 proof (model of ops::coerce/add/sub/mul/int_div/rem/pow/neg/int_as_value over the four integer representations: exact-or-error, total on the signed 128-bit range, width independent, Euclid law) + differential run of the model against the real engine + exact-integer/rational oracle",
+    "technique": "Lean 4 proof (model of ops::coerce/add/sub/mul/int_div/rem/pow/neg/int_as_value over the four integer representations and Bool: exact-or-error, total on the signed 128-bit range, width independent, Euclid law; ** for every exponent; float + - * proved exactly rounded on a bit-pattern model whose rounding function is proved round-to-nearest-even; tests, filters and string parsing modelled) + differential run of the model against the real engine + exact-integer/rational and IEEE oracle",
     "category": "proof",
-    "text": "The full statement is FALSE on the pinned code at exactly one operand, proved as `C08_counterexample : ¬ C08_full` (unary minus of 2^127 stored as u128 returns +2^127; kept as a recorded known finding because an existing snapshot pins it); everything else is proved as `C08_holds_partial` with that operand as an explicit hypothesis of the unary-minus exactness clause only. Kernel-checked theorems about the Lean model of minijinja's integer arithmetic (every representation U64/I64/U128/I128, every well-formed payload): a successful + - * // % ** or unary minus returns the mathematically exact integer, the operation succeeds whenever operands and result fit the signed 128-bit range (divisor non-zero, exponent in [0,2^32)), the outcome depends only on the mathematical operands and not on the stored width, and // and % satisfy q*b + r = a with 0 <= r < |b|; the float remainder algorithm (fmod plus |b| when negative) is proved to be the Euclidean remainder on scaled integers. Integer literals: the Lean model of Tokenizer::eat_number (radix prefix, scanning state machine, `_` separators, u64 fast path / u128 fallback, float detection) is proved to read every well-formed spelling - either prefix case, any separators not at the end, any leading zeros, canonical digits of v in radix 2/8/10/16 - as the token for v, stored as the well-formed representation of v, and to reject values >= 2^128 (lit_scan_radix, lit_scan_dec, lit_value, lit_value_dec, lit_repr, lit_too_large). The model is tied to /repo by running ~2*10^5 (quick) operand pairs from the boundary zoo and boundary-biased random pairs, written as literals and as i64/u64/i128/u128/f64 context values, through Expression::eval and template rendering and through the compiled Lean model; an independent Python oracle (unbounded ints, Fractions) adjudicates exactness, totality, width/spelling independence, the Euclid law for floats and exact int/float comparison. Round 3: finite doubles are modelled in Lean as bit patterns with exact dyadic values (no Float): int/float comparison is proved exact for all i64/u64/i128/u128 x non-NaN doubles (cmp_ops_exact, on C07's comparison model), int->float conversion exact below 2^53 and within half an ulp with ties to even above, float unary minus/abs exact, float % and // produce the Euclidean remainder/quotient of the exact values whenever those are representable (float_rem_exact, float_div_exact), int-of-float exact or error; abs/int/round/sum on integers exact or error; every case is also evaluated with constant folding defeated (run-time operator) and a quarter of them through 11 other features/entry points (set, macro, namespace augmented assignment, loop variable, render_block, custom delimiters, autoescape, `~`, strict undefined, loader template, State::call_macro), all of which must print the same value.",
+    "text": "The full statement is FALSE on the pinned code at exactly one operand, proved as `C08_counterexample : ¬ C08_full` (unary minus of 2^127 stored as u128 returns +2^127; kept as a recorded known finding because an existing snapshot pins it); everything else is proved as `C08_holds_partial` with that operand as an explicit hypothesis of the unary-minus exactness clause only. Kernel-checked theorems about the Lean model of minijinja's integer arithmetic (every representation U64/I64/U128/I128, every well-formed payload): a successful + - * // % ** or unary minus returns the mathematically exact integer, the operation succeeds whenever operands and result fit the signed 128-bit range (divisor non-zero, exponent non-negative), the outcome depends only on the mathematical operands and not on the stored width, and // and % satisfy q*b + r = a with 0 <= r < |b|. Round 5: ** completely (`pow_exact`, `pow_total_in_range` for EVERY non-negative exponent of the 128-bit range - two defects fixed on the way: 1 ** 2^32 failed, commit 3a8d5c6 - `pow_large_exponent_error`: an exponent >= 128 with |base| >= 2 is an error whatever its low 32 bits, `pow_negative_exponent_error`); Bool operands (`bool_operand_as_u64`: in every binary operator a Bool is exactly the u64 0/1, hence exact, total and width independent; `neg_bool_error`; `bool_eq_number_exact`; `bool_before_every_number`: the ordering operators compare the kinds first); the tests odd / even / divisibleby on every integer representation (`odd_exact`, `even_exact`, `divisibleby_exact`: the same % as the operator, i128::MIN divisibleby -1 included, `tests_width_independent`), min / max on integer/float mixes (`min_max_exact`), round on integers; strings through the int filter (`int_text_sound`: str::parse::<i128> accepts an optional sign and ASCII digits only - no blanks, `_`, radix prefixes; `int_filter_string_sound`: the only other way to an integer is the exact truncation of an accepted float text; `int_text_exact`: sign, leading zeros, digits -> that integer; `int_text_overflow_is_error`: an integer text outside i128 is an error, never the neighbour its float approximation truncates to - second defect fixed, commit ab4512f); floats: `round_to_nearest_even` - the rounding function of the model returns a double nearest to p/q, the even one on a tie, against every bit pattern - hence float + - * / are exactly rounded (`float_add_rounded`, `float_sub_rounded`, `float_mul_rounded`, `float_div_rounded`) and exact when the result is a double (`float_*_exact`), decimal texts are read correctly rounded (`float_text_rounded_*`), and the IEEE 754-2008 special cases of ** hold as a table (`float_pow_special_table`). Integer literals: the Lean model of Tokenizer::eat_number is proved to read every well-formed spelling as the token for its value and to reject values >= 2^128. Finite doubles are bit patterns with exact dyadic values (no Float): int/float comparison is proved exact for all i64/u64/i128/u128 x non-NaN doubles, int->float conversion exact below 2^53 and within half an ulp with ties to even above, float % and // produce the Euclidean remainder/quotient of the exact values whenever those are representable, int-of-float exact or error. The model is tied to /repo by ~5*10^5 (quick) cases - the boundary zoo squared, a representation box (24 core values in every pair of forms under every operator, comparison, filter and test), ** on [-17,17] x [0,130] plus the overflow edge of every exponent and exponents around and beyond 2^32, Bool operands everywhere, float arithmetic aimed at ties / cancellation / overflow / underflow, float ** on all class pairs, round(precision), strings around every boundary - run through Expression::eval, template rendering, a run-time (unfoldable) variant and 17 other features / entry points, and through the compiled Lean model (0 disagreements on ~95% of the cases, the rest is libm pow and consistency-only functions); an independent Python oracle (unbounded ints, Fractions, IEEE doubles) adjudicates.",
     "design_ref": "DESIGN.md §3 C08",
-    "level_note": "Trusted: Lean kernel; hand transcription of ops.rs (coerce, int_as_value, add, sub, mul, int_div, rem, pow, neg, as_f64, f64_div_euclid), of i128::try_from(Value), of filters abs/int/round/sum and of Tokenizer::eat_number into MJ/Model/{Num,NumF,NumLex}.lean (comparisons: C07's MJ/Model/Cmp.lean), validated differentially on every generated case they cover (integers, comparisons, float // and %, float unary minus/abs, int->float, int-of-float, literals); source facts the model duplicates (neg's special constant, the checked_* method of each operator, the lexer's prefix table and parsing calls) are regenerated from /repo and re-proved equal on every run. Rust's i128::checked_* are modelled by their contract; IEEE operations by exact-result-then-round-to-nearest-even (encodeRat). Floats are proved exact only under explicit representability hypotheses (the rounding itself is total but only validated); float literal values, f64::from_str, powf, float + - *, round(precision), min/max, range, batch, `~`, filesizeformat/truncate/indent arguments, bool operands, odd/even/divisibleby and string parsing in int/float are oracle/consistency streams without a Lean model.",
+    "level_note": "Trusted: Lean kernel; hand transcription of ops.rs (coerce, int_as_value, add, sub, mul, div, int_div, rem, pow, neg, as_f64, f64_div_euclid), of i128::try_from(Value) incl. its Bool and float arms, of filters abs/int/float/round/sum/min/max, tests odd/even/divisibleby, str::parse::<i128>/<f64> and of Tokenizer::eat_number into MJ/Model/{Num,NumF,NumLex,NumX}.lean (comparisons: C07's MJ/Model/Cmp.lean), validated differentially on every generated case they cover; source facts the model duplicates (neg's special constant, the checked_* method of each operator, the exponent conversion and unit-base arm of pow, the lexer's prefix table and parsing calls, `x % 2 != 0`, wrapping_rem, the parse steps of the int filter, f64_to_int's limit, `val as usize`) are regenerated from /repo and re-proved equal on every run. Rust's i128::checked_* and from_str are modelled by their contract; IEEE operations by exact-result-then-round (encodeRat, proved to be round-to-nearest-even). Validated only (model or oracle, no theorem): round(precision) (bit-exact model built from the proved-rounded * and /), powf outside the special cases and exact small powers (libm, within 1 ulp), odd/even/divisibleby on floats, that f64::from_str itself is correctly rounded (the model is, the engine agrees on every case), range, batch, `~`, filesizeformat/truncate/indent arguments (consistency across widths only).",
 }
 
 P63, P64, P127, P128 = 1 << 63, 1 << 64, 1 << 127, 1 << 128
@@ -125,6 +126,8 @@ def int_exact(op, a, b):
             return False, None
         if abs(a) >= 2 and b >= 128:
             return True, None
+        if abs(a) <= 1:
+            return True, (a if b % 2 else a * a) if b > 0 else 1
         return True, a ** b
     raise ValueError(op)
 
@@ -133,7 +136,7 @@ def int_required(op, a, b, exact):
     """must the engine return the exact result (no error allowed)?"""
     if exact is None or not in_i128(a) or (b is not None and not in_i128(b)) or not in_i128(exact):
         return False
-    if op == "pow" and not (0 <= b < (1 << 32)):
+    if op == "pow" and b < 0:
         return False
     return True
 
@@ -158,7 +161,11 @@ def check_int(r, case, op, A, B, impl):
     forms = A[2] + ("," + B[2] if B else "")
     reg = region(a) + ("," + region(b) if B else "")
     res, rend = split_impl(impl)[0], split_impl(impl)[1].get("render", "")
-    has_bool = "bool" in forms.split(",")
+    if op == "neg" and A[2] == "bool":
+        # unary minus is defined on numbers only: a Bool is rejected (`neg_bool_error`)
+        if not res.startswith("err:"):
+            r.oracle_failure(case, f"-<bool> returned {res}; ops::neg rejects values whose kind is not Number", "int:neg:bool-accepted")
+        return "err"
     if rend:
         r.oracle_failure(case, f"template prints {rend!r} but Expression::eval gives {res}", f"int:{op}:render:{reg}")
     if res == "panic":
@@ -168,7 +175,7 @@ def check_int(r, case, op, A, B, impl):
         r.oracle_failure(case, "a well-formed number literal is rejected by the lexer/parser", "literal:syntax-error")
         return "err"
     if res.startswith("err:"):
-        if defined and int_required(op, a, b, exact) and not has_bool:
+        if defined and int_required(op, a, b, exact):
             r.oracle_failure(case, f"error {res} although operands and exact result {exact} fit the signed 128-bit range", f"int:{op}:spurious-error:{reg}")
         return "err"
     if res.startswith("i:"):
@@ -237,6 +244,88 @@ def check_float_euclid(r, case, op, A, B, impl):
     return "approx"
 
 
+def bits_of(x):
+    return struct.unpack(">Q", struct.pack(">d", x))[0]
+
+
+def ulp_distance(x, y):
+    """number of doubles between two finite doubles of the same sign region (ordered bit patterns)"""
+    def ordered(v):
+        b = bits_of(v)
+        return b if b < (1 << 63) else (1 << 63) - b
+    return abs(ordered(x) - ordered(y))
+
+
+def as_float_operand(X):
+    """the f64 the engine computes with: ints and bools are converted `as f64` (round to nearest even)"""
+    return X[1] if X[0] == "f" else float(X[1])
+
+
+def check_float_arith(r, case, op, A, B, impl):
+    """+ - * / ** with at least one float operand (and / of any two numbers): IEEE-754 binary64,
+    i.e. the exact result rounded to nearest, ties to even; Python's float arithmetic is the
+    independent witness (the Lean bit-pattern model is the other one)"""
+    res, rend = split_impl(impl)[0], split_impl(impl)[1].get("render", "")
+    kinds = A[0] + B[0]
+    if rend:
+        r.oracle_failure(case, f"template prints {rend!r} but Expression::eval gives {res}", f"farith:{op}:render")
+    if res == "panic":
+        r.oracle_failure(case, "panic", f"farith:{op}:panic")
+        return "panic"
+    if not res.startswith("f:"):
+        r.oracle_failure(case, f"float operation returned {res}", f"farith:{op}:non-float:{kinds}")
+        return "other"
+    got = f_of_bits(res[2:])
+    a, b = as_float_operand(A), as_float_operand(B)
+    nan = float("nan")
+    try:
+        if op == "add":
+            want = a + b
+        elif op == "sub":
+            want = a - b
+        elif op == "mul":
+            want = a * b
+        elif op == "div":
+            if b == 0:
+                want = nan if (a == 0 or a != a) else math.copysign(float("inf"), a) * math.copysign(1.0, b)
+            else:
+                want = a / b
+        else:
+            want = None
+    except OverflowError:
+        want = None
+    if op == "pow":
+        try:
+            want = math.pow(a, b)
+        except (OverflowError, ValueError, ZeroDivisionError):
+            return "special"           # the IEEE special cases are judged by the Lean table only
+        if want != want or got != got:
+            if (want != want) != (got != got):
+                r.oracle_failure(case, f"a ** b = {got!r}, libm pow gives {want!r}", "farith:pow:nan-mismatch")
+                return "bad"
+            return "nan"
+        if want in (float("inf"), float("-inf")) or got in (float("inf"), float("-inf")) or want == 0 or got == 0:
+            if bits_of(want) != bits_of(got):
+                r.oracle_failure(case, f"a ** b = {got!r}, libm pow gives {want!r}", "farith:pow:wrong-value")
+                return "bad"
+            return "exact"
+        if ulp_distance(got, want) > 1:
+            r.oracle_failure(case, f"a ** b = {got!r}, libm pow gives {want!r} ({ulp_distance(got, want)} ulps apart)", "farith:pow:wrong-value")
+            return "bad"
+        return "exact" if got == want else "1ulp"
+    if want is None:
+        return "unconstrained"
+    if want != want:
+        if got == got:
+            r.oracle_failure(case, f"returned {got!r}, IEEE result is NaN", f"farith:{op}:wrong-value:{kinds}")
+            return "bad"
+        return "nan"
+    if bits_of(got) != bits_of(want):
+        r.oracle_failure(case, f"returned {got!r} (bits {res[2:]}), the correctly rounded result is {want!r} (bits {bits_of(want):016x})", f"farith:{op}:wrong-value:{kinds}")
+        return "bad"
+    return "exact"
+
+
 def cmp_exact(op, x, y):
     return {"lt": x < y, "le": x <= y, "gt": x > y, "ge": x >= y, "eq": x == y, "ne": x != y}[op]
 
@@ -246,7 +335,13 @@ def check_cmp(r, case, op, A, B, impl):
     kinds = A[0] + B[0]
     if rend:
         r.oracle_failure(case, f"template prints {rend!r} but Expression::eval gives {res}", f"cmp:{op}:render")
-    want = "b:1" if cmp_exact(op, A[1], B[1]) else "b:0"   # Python compares int/float exactly
+    truth = cmp_exact(op, A[1], B[1])                        # Python compares int/float exactly
+    ab, bb = A[2] == "bool", B[2] == "bool"
+    if ab != bb and op not in ("eq", "ne"):
+        # `Ord for Value` compares the kinds first: every Bool sorts before every number
+        # (`bool_before_every_number`); only `==` / `!=` look at the number a Bool stands for
+        truth = {"lt": ab, "le": ab, "gt": bb, "ge": bb}[op]
+    want = "b:1" if truth else "b:0"
     if res != want:
         which = "int" if kinds == "ii" else ("float" if kinds == "ff" else "int-float")
         r.oracle_failure(case, f"{op} gives {res}, exact comparison gives {want}", f"cmp:{which}:{'eq' if op in ('eq', 'ne') else 'order'}")
@@ -307,7 +402,7 @@ def split_impl(impl):
     res, extra = parts[0], {}
     for p in parts[1:]:
         tag, _, v = p.partition("=")
-        if tag in ("render", "runtime", "conj", "conjrt") or tag.startswith("embed"):
+        if tag in ("render", "runtime", "conj", "conjrt", "via", "stepwise") or tag.startswith("embed"):
             extra[tag] = v
         else:                      # a `|` inside a value
             res = res if not extra else res
@@ -328,6 +423,10 @@ def check_consistency(r, case, op, impl):
             continue               # reported by the stream's own check
         if tag == "runtime":
             r.oracle_failure(case, f"constant folding gives {res}, the run-time operator gives {v}", "consistency:folded-vs-runtime")
+        elif tag == "via":
+            r.oracle_failure(case, f"the direct form gives {res}, the same filter / test applied by name through map / select gives {v}", "consistency:via-map-select")
+        elif tag == "stepwise":
+            r.oracle_failure(case, f"the nested expression gives {res}, evaluating the inner operator first and the outer one on its value gives {v}", "consistency:nested-vs-stepwise")
         elif tag in ("conj", "conjrt"):
             r.oracle_failure(case, f"the chained comparison gives {res}, the conjunction of its links gives {v}"
                              + (" (run-time operands)" if tag == "conjrt" else ""), "chain:not-the-conjunction")
@@ -376,6 +475,10 @@ def check_more(r, case, op, A, B, impl):
             return "bad"
         return "exact"
     if op in ("f_min", "f_max", "f_sortfirst", "f_sortlast", "f_rsortfirst"):
+        if A[2] == "bool" or B[2] == "bool":
+            # the value order puts every Bool before every number and returns the Bool itself; judged
+            # by the Lean model (C07's `cmpV`) only
+            return "bool"
         infs = (float("inf"), float("-inf"))
         if A[1] in infs or B[1] in infs:
             return "unconstrained"
@@ -439,11 +542,21 @@ def check_more(r, case, op, A, B, impl):
                 r.oracle_failure(case, f"returned {res}, an integer rounds to itself", "func:roundp:wrong-value")
                 return "bad"
             return "exact"
-        x = Fraction(A[1])
-        n = (abs(x) + Fraction(1, 2)).__floor__()
-        want = float(n) if A[1] >= 0 else -float(n)
-        if not same_float(res, want):
-            r.oracle_failure(case, f"returned {res}, expected {want!r}", "func:roundp:wrong-value")
+        if A[0] != "f" or B[0] != "i":
+            return "other"
+        p = B[1]
+        if not (-22 <= p <= 22) or A[1] != A[1] or A[1] in (float("inf"), float("-inf")):
+            return "unconstrained"
+        # `let x = 10f64.powi(p); (x * val).round() / x`: each step correctly rounded, `round` = half away from zero
+        x = float(10 ** p) if p >= 0 else 1.0 / float(10 ** -p)
+        m = x * A[1]
+        if m in (float("inf"), float("-inf")):
+            return "unconstrained"
+        n = (abs(Fraction(m)) + Fraction(1, 2)).__floor__()
+        rounded = math.copysign(float(n), m)
+        want = rounded / x
+        if not res.startswith("f:") or bits_of(f_of_bits(res[2:])) != bits_of(want):
+            r.oracle_failure(case, f"returned {res}, expected {want!r} (bits {bits_of(want):016x})", "func:roundp:wrong-value")
             return "bad"
         return "exact"
     if op in ("f_strint", "f_strfloat"):
@@ -466,6 +579,14 @@ def check_more(r, case, op, A, B, impl):
         except ValueError:
             pass
         if op == "f_strfloat":
+            word = t[1:].lower() if t[:1] in ("+", "-") else t.lower()
+            if word in ("inf", "infinity", "nan"):
+                # Rust's f64::from_str reads these words (any case, optional sign)
+                want = float(("-" if t[:1] == "-" else "") + word)
+                if not same_float(res, want) or (want == want and bits_of(f_of_bits(res[2:])) != bits_of(want)):
+                    r.oracle_failure(case, f"{t!r}|float returned {res}, expected {want!r}", "func:strfloat:wrong-value")
+                    return "bad"
+                return "exact"
             if res.startswith("err:"):
                 return "err"           # Rust's grammar is narrower than any oracle's: failing is allowed
             if fl is None and lenient_fl is not None and same_float(res, lenient_fl):
@@ -479,6 +600,11 @@ def check_more(r, case, op, A, B, impl):
             if plain_int and in_i128(int(t)):
                 r.oracle_failure(case, f"{t!r}|int fails although it is an integer that fits i128", "func:strint:spurious-error")
             return "err"
+        if plain_int and not in_i128(int(t)):
+            # an integer text that does not fit is out of range: never the neighbour its float
+            # approximation truncates to (`int_text_overflow_is_error`)
+            r.oracle_failure(case, f"{t!r}|int returned {res} for an integer text outside the signed 128-bit range", "func:strint:int-text-out-of-range")
+            return "bad"
         if plain_int and in_i128(int(t)):
             want = int(t)
         elif fl is not None and fl == fl and abs(fl) != float("inf") and in_i128(int(fl)):
@@ -539,6 +665,48 @@ def check_filter(r, case, op, A, B, impl):
             return "bad"
         return "exact"
 
+    if A[2] == "bool":
+        # Bool operands: `int` -> 0 / 1, `float` -> 0.0 / 1.0, odd / even of 0 / 1; abs, round and sum
+        # accept numbers only
+        if op == "f_int":
+            return int_result(a, True, "the number the bool stands for")
+        if op == "f_float":
+            if not same_float(res, float(a)):
+                r.oracle_failure(case, f"returned {res}, expected {float(a)!r}", "filter:float:wrong-value")
+                return "bad"
+            return "exact"
+        if op in ("f_abs", "f_round", "f_sum"):
+            if not res.startswith("err:"):
+                r.oracle_failure(case, f"returned {res} for a Bool operand; the filter accepts numbers only", f"filter:{name}:bool-accepted")
+                return "bad"
+            return "err"
+        if op == "t_odd":
+            return bool_result(True, a % 2 == 1)
+        if op == "t_even":
+            return bool_result(True, a % 2 == 0)
+    if op == "f_sum" and B is not None and B[2] == "bool":
+        if not res.startswith("err:"):
+            r.oracle_failure(case, f"returned {res} for a Bool item; sum accepts numbers only", "filter:sum:bool-accepted")
+            return "bad"
+        return "err"
+    if op == "t_divby" and (A[0] == "f" or B[0] == "f"):
+        # `coerce(v, other, false)`: F64(a, b) => (a % b) == 0.0; a lossless common float must exist
+        fa, fb = as_float_operand(A), as_float_operand(B)
+        lossless = (A[0] == "f" or Fraction(fa) == A[1]) and (B[0] == "f" or Fraction(fb) == B[1])
+        if not lossless:
+            return bool_result(True, False)
+        if fa != fa or fb != fb or fa in (float("inf"), float("-inf")) or fb == 0:
+            return bool_result(True, False)
+        if fb in (float("inf"), float("-inf")):
+            return bool_result(True, fa == 0)
+        return bool_result(True, math.fmod(fa, fb) == 0)
+    if op in ("t_odd", "t_even") and A[0] == "f":
+        # `i128::try_from(value)`: an integral float inside the i64 range counts as that integer
+        x = A[1]
+        integral = x == x and x not in (float("inf"), float("-inf")) and x == math.floor(x) and -(1 << 63) <= x < (1 << 63)
+        if not integral:
+            return bool_result(True, False)
+        return bool_result(True, int(x) % 2 == (1 if op == "t_odd" else 0))
     if A[0] == "i":
         if op == "f_abs":        # x|abs == -x for negative x, x otherwise
             return int_result(abs(a), in_i128(a) and in_i128(abs(a)), "|x|")
@@ -644,7 +812,13 @@ def judge_core(case, impl):
     allint = A[0] == "i" and (B is None or B[0] == "i")
     key = None
     check_consistency(c, case, op, impl)
-    if op.startswith("chain:"):
+    if op.startswith("nest:"):
+        stream = "nested"
+        res = split_impl(impl)[0]
+        if res == "panic":
+            c.oracle_failure(case, "panic", "nested:panic")
+        out = "err" if res.startswith("err:") else "consistent"
+    elif op.startswith("chain:"):
         stream = "chain"
         out = check_chain(c, case, op, opds, impl)
     elif op.split(":")[0] in ("is", "sel", "rej", "selattr"):
@@ -653,7 +827,7 @@ def judge_core(case, impl):
     elif op in OPS_MORE:
         stream = "func"
         out = check_more(c, case, op, A, B, impl)
-        if A[0] == "i" and (B is None or B[0] == "i"):
+        if A[0] == "i" and (B is None or B[0] == "i") and A[2] != "bool" and (B is None or B[2] != "bool"):
             key = (op, A[1], B[1] if B else None)
     elif op in OPS_FILTER:
         stream = "filter"
@@ -670,10 +844,14 @@ def judge_core(case, impl):
     elif op in OPS_CMP:
         stream = "cmp-int" if allint else "cmp-float"
         out = check_cmp(c, case, op, A, B, impl)
+    elif op == "div" or (not allint and op in ("add", "sub", "mul", "pow")):
+        stream = "float-arith"
+        out = check_float_arith(c, case, op, A, B, impl)
     elif allint:
         stream = "int"
         out = check_int(c, case, op, A, B, impl)
-        if A[2] != "bool" and (B is None or B[2] != "bool"):
+        if not (op == "neg" and A[2] == "bool"):
+            # a Bool counts as the integer it stands for (`bool_width_independent`)
             key = (op, A[1], B[1] if B else None)
     else:
         stream = "float-euclid"
@@ -719,7 +897,8 @@ def judge(r, case, impl, width):
 
 EMBEDDINGS = ["set-variable", "macro-call", "namespace-augmented-assign", "for-loop-variable", "render_block via render_captured",
               "custom-delimiters", "autoescape-html", "concat-with-empty-string", "strict-undefined+debug-off",
-              "loader-template via render_captured_to", "State::call_macro"]
+              "loader-template via render_captured_to", "State::call_macro", "conditional-expression", "with-block",
+              "list-item", "dict-value", "default-filter-argument", "dict()-keyword-argument inside for+if", "fuel-limited-environment"]
 
 
 def embedding_of(case):
@@ -732,79 +911,191 @@ def embedding_of(case):
     return EMBEDDINGS[(h // 4) % len(EMBEDDINGS)] if h % 4 == 0 else None
 
 
+N_SHARDS = max(2, min(16, os.cpu_count() or 4))
+
+
+def shard_of(case, n):
+    """cases with the same operator and the same mathematical operands land in the same shard (the
+    width-independence check compares them); deterministic"""
+    f = case.split(" ")
+    vals = [t.rsplit("=", 1)[1] if t.startswith(("src:", "fsrc:")) else t.split(":", 1)[-1] for t in f[1:]]
+    return zlib.crc32((f[0] + " " + " ".join(vals)).encode()) % n
+
+
+class _Shard:
+    """what a worker process collects for its share of the cases; merged by the parent in shard order"""
+    def __init__(self):
+        self.fails, self.disagreements, self.broken, self.samples = [], [], [], []
+        self.hist = collections.defaultdict(collections.Counter)
+        self.evaluations, self.distinct = 0, set()
+        self.n_model, self.n_width = 0, 0
+
+    def oracle_failure(self, case, what, site=None):
+        self.fails.append((case, what, site))
+
+    def model_disagreement(self, case, impl, model):
+        self.disagreements.append((case, impl, model))
+
+    def count(self, case_key=None, nontrivial=True, n=1):
+        self.evaluations += n
+        if case_key is not None and nontrivial:
+            self.distinct.add(hashlib.blake2b(str(case_key).encode(), digest_size=8).digest())
+
+    def sample(self, obj):
+        self.samples.append(obj)
+
+
+def same_result(impl, m):
+    """engine result line == model result line; any two NaNs are the same result"""
+    if impl == m:
+        return True
+    if impl.startswith("f:") and m.startswith("f:") and "|" not in impl:
+        x = impl[2:]
+        xn = x != "nan" and (int(x, 16) & 0x7fffffffffffffff) > 0x7ff0000000000000
+        mn = m[2:] == "nan" or (int(m[2:], 16) & 0x7fffffffffffffff) > 0x7ff0000000000000
+        return xn and mn
+    return False
+
+
+def run_shard(args):
+    exe, driver_exe, env, cases_text, index = args
+    sh = _Shard()
+    t0 = time.time()
+    p = subprocess.run([exe, "run"], input=cases_text, capture_output=True, text=True, env=env)
+    if p.returncode != 0:
+        sh.broken.append(f"harness c08 run (shard {index}) exited {p.returncode}: {p.stderr[-300:]}")
+        return sh
+    out = p.stdout
+    lines = out.splitlines()
+    t1 = time.time()
+    d = subprocess.run([driver_exe], input=out, capture_output=True, text=True)
+    model = d.stdout.splitlines() if d.returncode == 0 else None
+    if model is None or len(model) != len(lines):
+        sh.broken.append(f"model driver output does not line up with the harness cases (shard {index}): {d.stderr[-200:]}")
+        model = None
+    t2 = time.time()
+    width = {}
+    for i, line in enumerate(lines):
+        case, impl = line.split("\t")
+        if case.startswith("lex "):
+            m = model[i].split("\t")[1] if model is not None else None
+            check_lex(sh, case, case[4:], impl, m)
+            sh.count(case, True)
+            sh.hist["stream"]["lex"] += 1
+            sh.hist["outcome"]["lex:" + impl.split(":")[0].split("@")[0]] += 1
+            sh.n_model += 1 if m is not None else 0
+            continue
+        try:
+            stream, op, outcome, allint = judge(sh, case, impl, width)
+        except BadCase as e:
+            if len(sh.broken) < 5:
+                sh.broken.append(f"{e} (case `{case}`)")
+            continue
+        sh.count(case, outcome not in ("zero-divisor",))
+        sh.hist["stream"][stream] += 1
+        sh.hist["op"][op] += 1
+        sh.hist["outcome"][stream + ":" + outcome] += 1
+        sh.hist["forms"][",".join(t.split(":")[0] for t in case.split(" ")[1:])] += 1
+        e = embedding_of(case)
+        if e:
+            sh.hist["embedding"][e] += 1
+        if any(t.split(":")[0] in ("lit", "src", "flit", "fsrc") for t in case.split(" ")[1:]):
+            sh.hist["entry"]["folded-vs-runtime compared"] += 1
+        if model is not None:
+            c2, m, lspec = model[i].split("\t")
+            if lspec != py_spec(case) and len(sh.broken) < 5:
+                sh.broken.append(f"exact-arithmetic oracles disagree on `{case}`: Lean Int {lspec}, Python int {py_spec(case)}")
+            if c2 != case:
+                sh.broken.append(f"model driver line {i} is for `{c2}`, expected `{case}`")
+                model = None
+            elif m != "skip":
+                sh.n_model += 1
+                sh.hist["model"][stream] += 1
+                if not same_result(impl, m):
+                    sh.model_disagreement(case, impl, m)
+        if zlib.crc32(case.encode()) % 40009 == 0:
+            sh.sample({"case": case, "engine": impl})
+    sh.n_width = len(width)
+    sh.timing = (round(t1 - t0, 1), round(t2 - t1, 1), round(time.time() - t2, 1))
+    return sh
+
+
 def run(r):
     r.rule = ("boundary zoo (0, +-1, +-2^31, +-2^53+-1, +-2^63+-1, 2^64+-1, +-2^127+-1, 2^128-1, ...) squared x 6 binary operators "
               "x literal and i64/u64/i128/u128 variable forms, unary minus on the zoo in every form, random pairs biased to the "
               "2^63/2^64/2^127/2^128 neighbourhoods (half targeted so that the exact result lands within 2 of an overflow edge), "
+              "the REPRESENTATION BOX: 24 core values in every pair of the five forms (serde twins mixed in) x 6 operators, 6 comparisons, "
+              "/, sum, divisibleby, min/max, and every form under unary minus, abs, int, float, round, odd, even; "
+              "** on [-17,17] x [0,130], the overflow edge of every exponent 1..130 (floor(2^(127/k)) and neighbours, both signs), "
+              "exponents around 2^31/2^32/2^63/2^64/2^96/2^127 and with small low 32 bits, negative exponents; "
               "comparisons int/int, int/float, float/float, chained comparisons of length 3 and 4 (all 36 operator pairs on equal / "
               "ordered operand patterns, every comparison case as first / middle link, in / not in links; variables, literals and "
               "mixes) against the conjunction of their links, the tests is eq/ne/lt/le/gt/ge and select/reject/selectattr under all "
               "15 registered names, min/max/sort/unique/in, and // and % with float operands; every literal also re-spelled "
               "(hex/octal/binary with either prefix case, `_` separators, leading zeros, bare or parenthesised minus, floats in "
               "exponent / .0 notation) with all spellings of the same operands required to agree; the tokenizer alone on those "
-              "spellings, edge texts and random texts against the Lean model of eat_number; bool / i8..u32 / isize / usize / "
-              "serde-passed operands; abs/int/float/round/sum filters and odd/even/divisibleby tests against the operators; "
-              "a case is non-trivial when it is distinct and the exact result is defined")
+              "spellings, edge texts and random texts against the Lean model of eat_number; Bool operands of every operator, filter and "
+              "test against every core value in every form, the float zoo and random integers; float + - * / on the float zoo squared "
+              "and on random pairs aimed at ties, cancellation, overflow and underflow, int/float mixes, / of two integers; float ** on "
+              "27 x 35 class representatives (NaN, infinities, zeros, +-1, magnitudes around 1, odd / even / fractional exponents) and "
+              "random pairs; round(precision) for precisions -3..22; odd/even/divisibleby on floats; i8..u32 / isize / usize / "
+              "serde-passed operands; abs/int/float/round/sum filters and odd/even/divisibleby tests against the operators; strings "
+              "through the int and float filters: sign x leading zeros x the integers around 0, 2^53, 2^63, 2^64, 2^127 (incl. the "
+              "2^74 wide band below -2^127 whose float approximation is -2^127), blanks, separators, radix prefixes, exponents, "
+              "inf / nan words, long digit strings, random texts; a case is non-trivial when it is distinct and the exact result is defined")
     r.assumptions = ["Rust's i128::checked_add/sub/mul/pow/div_euclid/rem_euclid return the exact result or None (std contract)",
-                     "IEEE-754 binary64 +, -, /, fmod, trunc, round are the exact result rounded to nearest-even (the Lean float model encodes exactly that; validated bit-for-bit against the engine on every float case)",
-                     "f64::from_str is correctly rounded (float literal values and the float filter on strings are judged against Python's float())"]
-    r.regen_tables(needed=["C08_NEG_SPECIAL", "C08_INT_METHODS", "C08_LEX_RADIX", "C08_COMPARE_ARMS"])
+                     "IEEE-754 binary64 +, -, *, /, fmod, trunc, round are the exact result rounded to nearest-even (the Lean float model encodes exactly that; validated bit-for-bit against the engine on every float case, and against Python's float arithmetic)",
+                     "f64::from_str is correctly rounded (the Lean model of the float filter on strings computes the correctly rounded value; also judged against Python's float())",
+                     "powf follows IEEE 754-2008 9.2.1 in its special cases (Lean table, validated on every class pair) and is within 1 ulp of the platform libm otherwise"]
+    r.regen_tables(needed=["C08_NEG_SPECIAL", "C08_INT_METHODS", "C08_LEX_RADIX", "C08_COMPARE_ARMS", "C08_FILTER_FACTS"])
     r.lean_prove("MJ.Props.C08", "MJ/Audit/C08.lean", extra_targets=["drive_c08"])
     exe = r.cargo_build("c08")
     if exe is None:
         return
-    rc, out, err = r.harness(exe, ["gen", r.tier])
+    t0 = time.time()
+    rc, out, err = r.harness(exe, ["cases", r.tier])
     if rc != 0:
-        r.broken.append(f"harness c08 exited {rc}: {err[-300:]}")
+        r.broken.append(f"harness c08 cases exited {rc}: {err[-300:]}")
         return
-    lines = out.splitlines()
-    model = r.driver("drive_c08", out)
-    if model is None or len(model) != len(lines):
-        r.broken.append("model driver output does not line up with the harness cases")
-        model = None
-    width = {}
-    n_model = 0
-    for i, line in enumerate(lines):
-        case, impl = line.split("\t")
-        if case.startswith("lex "):
-            m = model[i].split("\t")[1] if model is not None else None
-            check_lex(r, case, case[4:], impl, m)
-            r.count(case, True)
-            r.hist["stream"]["lex"] += 1
-            r.hist["outcome"]["lex:" + impl.split(":")[0].split("@")[0]] += 1
-            n_model += 1 if m is not None else 0
-            continue
-        try:
-            stream, op, outcome, allint = judge(r, case, impl, width)
-        except BadCase as e:
-            if len(r.broken) < 5:
-                r.broken.append(f"{e} (case `{case}`)")
-            continue
-        r.count(case, outcome not in ("zero-divisor",))
-        r.hist["stream"][stream] += 1
-        r.hist["op"][op] += 1
-        r.hist["outcome"][stream + ":" + outcome] += 1
-        r.hist["forms"][",".join(t.split(":")[0] for t in case.split(" ")[1:])] += 1
-        e = embedding_of(case)
-        if e:
-            r.hist["embedding"][e] += 1
-        if any(t.split(":")[0] in ("lit", "src", "flit", "fsrc") for t in case.split(" ")[1:]):
-            r.hist["entry"]["folded-vs-runtime compared"] += 1
-        if model is not None:
-            c2, m, lspec = model[i].split("\t")
-            if lspec != py_spec(case) and len(r.broken) < 5:
-                r.broken.append(f"exact-arithmetic oracles disagree on `{case}`: Lean Int {lspec}, Python int {py_spec(case)}")
-            if c2 != case:
-                r.broken.append(f"model driver line {i} is for `{c2}`, expected `{case}`")
-                model = None
-            elif m != "skip":
-                n_model += 1
-                if impl != m:
-                    r.model_disagreement(case, impl, m)
-        if i % 15013 == 0:
-            r.sample({"case": case, "engine": impl})
+    cases = out.splitlines()
+    ok, _ = r.lean_build(["drive_c08"])
+    if not ok:
+        r.broken.append("model driver drive_c08 does not build")
+        return
+    import common
+    driver_exe = os.path.join(common.LEAN, ".lake", "build", "bin", "drive_c08")
+    env = dict(common.ENV)
+    env["VERIF_SEED"] = str(r.seed)
+    env["VERIF_TIER"] = r.tier
+    n = N_SHARDS
+    buckets = [[] for _ in range(n)]
+    for c in cases:
+        buckets[shard_of(c, n)].append(c)
+    jobs = [(exe, driver_exe, env, "\n".join(b) + "\n", i) for i, b in enumerate(buckets) if b]
+    with concurrent.futures.ProcessPoolExecutor(max_workers=n, mp_context=multiprocessing.get_context("fork")) as pool:
+        shards = list(pool.map(run_shard, jobs))
+    n_model = n_width = 0
+    for sh in shards:                      # shard order, generation order inside a shard: deterministic
+        r.broken.extend(sh.broken[: max(0, 8 - len(r.broken))])
+        for c, what, site in sh.fails:
+            r.oracle_failure(c, what, site)
+        for c, impl, m in sh.disagreements:
+            r.model_disagreement(c, impl, m)
+        r.evaluations += sh.evaluations
+        r.distinct |= sh.distinct
+        for k, cnt in sh.hist.items():
+            r.hist[k].update(cnt)
+        for smp in sh.samples[:1]:
+            r.sample(smp)
+        n_model += sh.n_model
+        n_width += sh.n_width
+    if r.evaluations != len(cases) and not r.broken:
+        r.broken.append(f"{len(cases)} cases generated but {r.evaluations} judged")
     r.extra["model_compared"] = n_model
-    r.extra["distinct_operand_pairs"] = len(width)
+    r.extra["distinct_operand_pairs"] = n_width
+    r.extra["shards"] = len(jobs)
+    r.extra.setdefault("timing_s", {})["cases+harness+driver+judge (parallel)"] = round(time.time() - t0, 1)
+    r.extra["timing_s"]["per shard (harness, driver, judge) max"] = [max(getattr(sh, "timing", (0, 0, 0))[i] for sh in shards) for i in range(3)]
 
 
 def replay(r, path):
